@@ -228,7 +228,7 @@ fn rotation_policy(np: usize) {
         }
         k += 1;
     }
-    kani::cover!(np <= 10 || holders == MAX_UNCHOKED, "all ten slots taken (when there are enough peers)");
+    kani::cover!(np <= MAX_UNCHOKED || holders == MAX_UNCHOKED, "all slots taken (when there are enough peers)");
     kani::cover!(optimistic == 1, "an optimistic unchoke exists");
     std::mem::forget(cmd);
     std::mem::forget(s);
@@ -254,5 +254,18 @@ fn c14_rotation_policy_12_peers() {
 #[kani::proof]
 #[kani::unwind(5)]
 fn c14_rotation_policy_3_peers() {
+    rotation_policy(3);
+}
+
+// @prop C14
+// @tier thorough
+// @config MAX_UNCHOKED=1
+// @fn Session::change_conn_state
+// @bound 3 peers with the slot limit scaled from 10 to 1 in the scratch copy (so that the "limit reached" branch and the rate ordering bind with few peers), every flag combination, every rate vector, every admissible optimistic pick or none
+// @outside the real limit of ten (would need more than ten peers: out of memory, DESIGN 3.11); the policy code does not depend on the value of the constant other than through comparisons with it
+// @desc as c14_rotation_policy_3_peers, with the limit binding: at most MAX_UNCHOKED slot holders, an interested peer stays choked only if the slots are taken by peers with rates >= its own, peers beyond the limit are choked, and the broadcast map mirrors exactly the changes
+#[kani::proof]
+#[kani::unwind(5)]
+fn c14_rotation_policy_limit_scaled_to_1() {
     rotation_policy(3);
 }
